@@ -23,7 +23,7 @@ func init() {
 	Register(&Check{
 		ID: "C18", Level: "exploration", Tech: "deterministic simulation of the two environment inputs of key handling: seeded crypto randomness and the simulated clock (generation at t0, use after a clock jump of up to 100 years)",
 		Rule:      "per run one format in {enc:age, enc:pgp, sig:minisign, sig:pgp} and one password from {empty, ASCII, phrase, multi-byte, 1 KB, blank, with newline}; a fresh pair is generated at simulated time t0 (2000-01-01 + d0), the clock is advanced by d1 in {0, 1 s, 1 year, 30 years, 100 years}; oracle: the pair parses with its password, string and stream encrypt/decrypt (sign/verify) round-trip, parsing with another password fails, and an independently generated pair of the same format neither decrypts nor verifies - strings, streams and header records, asked before AND after the right pair has processed the very same data; non-trivial = every run (a fresh pair is generated); distinct by (format, password class, clock jump). The password/format quantifier is plain seeded generation; what the simulator owns is entropy and clock.",
-		QuickRuns: 96, QuickSecs: 80, ThoroughRuns: 1500, ThoroughSecs: 1500,
+		QuickRuns: 96, QuickSecs: 80, ThoroughRuns: 1500, ThoroughSecs: 1500, MaxWorkers: 8,
 		Assumptions: []string{"clock moves forward only (a key 'from the future' being rejected is standard OpenPGP behaviour)"},
 		Gen: func(r *rand.Rand, tier string, relax Relax) *Case {
 			c := &Case{Cfg: PlainConfig(20), P: map[string]int64{}, S: map[string]string{}}
